@@ -850,6 +850,9 @@ func (h *hist) classifyFlip(i int, must bool, cls []string, views []feedView, pr
 	oracleSide := len(cls) > 0
 	seen := map[string]bool{}
 	for _, s := range cls {
+		if must && strings.Contains(s, "since-inside-the-request-second") {
+			continue // the flip has a clear-cut justification; the lenient-only one is not what was observed
+		}
 		if !seen[s] {
 			seen[s] = true
 			run.Count(s, 1)
@@ -1222,7 +1225,7 @@ func main() {
 		runHistory(run, c.Case)
 		run.Finish()
 	}
-	n := run.N(243, 5400)
+	n := run.N(324, 8100)
 	sim.Parallel(n, 16, func(i int) { runHistory(run, i) })
 	req := []string{
 		"deactivated:missed-request", "deactivated:missed-request:active-since-1s-before-request",
